@@ -928,6 +928,55 @@ CONFIG["C12"] = dict(
     assumptions=["one `now` per loop iteration", "hash-order dependent tie-breaks may make the two executions diverge; packet content is compared canonically (sorted, without TTLs)"],
 )
 
+CONFIG["C17"] = dict(
+    modules=["Mdns.Props.C17"],
+    model_files="Mdns/Model/Sched.lean, Mdns/Model/Cache.lean",
+    nontrivial=_sim_nontrivial,
+    extra_evidence=_sim_extra,
+    rule="histories on real daemon threads under the simulation seams, from VERIF_SEED (harness/src/c17.rs, scen.rs): three "
+         "quarters with a scripted responder (crafted A/AAAA/SRV/TXT/PTR packets: several addresses per host, IPv4 and IPv6, "
+         "TTLs 1..4500 s, cache-flush updates, goodbyes, letter-case variants of the host name on the caller and responder "
+         "side, time-outs 1.5 s..200 s, verify requests), one quarter with real responder daemons (register / unregister / "
+         "shutdown). Non-trivial = at least one packet and one client event. Distinct = distinct scripts.",
+    level_text="The monitor ok_C17 decides on every real history: each AddressesFound lists only addresses with a delivered, "
+               "still usable A/AAAA record for that host name (letter case ignored), tagged with the interface they arrived on; "
+               "each AddressesRemoved lists only addresses of which some record has run out; SearchStarted first, SearchTimeout "
+               "then SearchStopped at the deadline, no query afterwards (shared with C13); the A+AAAA back-off is C19's. Lean "
+               "theorems on the scheduler model: keyed by the lower-cased name (stop and time-out independent of letter case), "
+               "A and AAAA at once, no retransmission beyond the deadline, time-out contract; on the cache model: look-ups by "
+               "lower-cased name. Responder-free histories are predicted exactly by the scheduler model.",
+    level_note="Trusted: Lean kernel; allowed axioms only; simulation seams; the address-event clauses are decided by an oracle "
+               "computed from the delivered records (record identity includes the cache-flush bit, as in the daemon), not by a "
+               "model prediction; the exact expiry millisecond of an address in AddressesFound is left open (statement masks it).",
+    partial=["address events (found/removed) have no model-level theorem yet: the client-side daemon model is under construction",
+             "refresh of addresses at 80 % is covered at record level by C11 (resolution_refresh_once), not observed here as a clause"],
+    assumptions=["event receivers stay alive", "histories with verify requests are not judged for AddressesRemoved (verify shortens lifetimes)"],
+)
+
+CONFIG["C20"] = dict(
+    modules=["Mdns.Props.C20"],
+    model_files="Mdns/Model/Cache.lean, Mdns/Model/Sched.lean",
+    nontrivial=_sim_nontrivial,
+    extra_evidence=_sim_extra,
+    rule="client histories with a scripted responder (harness/src/c17.rs generate_c20): announcements, partial record sets "
+         "without PTR, foreign types and foreign PTR-less records, goodbyes, TTLs 1..4500 s, browses and hostname searches "
+         "started and stopped, get_metrics readings along the way and after tails of 20 s .. 5000 s (beyond every TTL and "
+         "beyond the one-hour life of a cancelled retransmission timer). Non-trivial = at least one packet and one client "
+         "event. Distinct = distinct scripts.",
+    level_text="`drained` (after every cached record has expired one eviction pass leaves all five cache tables empty, including "
+               "records no PTR points to - the repair of D19), `evict_only_removes`, `idle_arms_nothing` are Lean theorems on "
+               "the cache / scheduler models (the cache model is compared with the real DnsCache op by op in C11). The monitor "
+               "ok_C20 reads the daemon's own metrics on real histories: no cached record and at most the interface-check timer "
+               "once every TTL has passed and all searches ended; at every reading, no more cached records than the usable "
+               "delivered records some search of the history needs.",
+    level_note="Trusted: Lean kernel; allowed axioms only; simulation seams; the daemon-level clauses are decided by the monitor "
+               "on metrics, not by a model prediction. Keys left empty in the maps of records the cache declines are not visible "
+               "in the metrics and not judged.",
+    partial=["`bounded` (size <= f(active searches)) is monitor-only; the acceptance rule for PTR-less packets makes it false of the "
+             "code (known finding D25)"],
+    assumptions=["metrics are the observable (as the statement says)"],
+)
+
 # C19 = component level (delay arithmetic, `backoff` ops) + daemon level (scheduler model, `sim` histories)
 _c19_comp = CONFIG["C19"]
 CONFIG["C19"] = dict(
